@@ -300,5 +300,6 @@ int main(int argc, char** argv)
 	def.run = runCase;
 	def.describe = [](std::size_t i) { return "kind " + std::to_string(gCases[i].kind) + " n=" + std::to_string(gCases[i].n) + " schedule " + std::to_string(gCases[i].which); };
 	def.caseTimeoutS = 1200;
+	mc::alloc_cap = std::size_t(4) << 30;   // the explorer's own tables (seen set, parent links, bit matrices) exceed the default 64 MiB environment cap; no library allocation in this check is driven by input sizes
 	return mc::Main(argc, argv, def);
 }
